@@ -155,11 +155,12 @@ impl Reg {
 
     pub fn set_num(&mut self, q_num: N) {
         let q_size = 1_usize << q_num;
+        let shrink = q_num < self.q_num;
         self.q_num = q_num;
         self.q_mask = q_size.wrapping_sub(1_usize);
-        self.psi.resize(q_size, C_ZERO);
+        self.psi.resize(q_size.max(MIN_BUFFER_LEN), C_ZERO);
 
-        if q_num < self.q_num {
+        if shrink {
             self.reset(0);
         }
     }
